@@ -304,11 +304,17 @@ func (fc *fileController) acquireReader(ctx context.Context, key uint16) (*contr
 func (fc *fileController) newReader(ctx context.Context, key uint16) (*controlledReader, error) {
 	_, span := fc.T.Bench(ctx, "new_reader")
 	defer span.End()
+	// The file is opened under the readers lock: garbage collection holds that lock
+	// (shared) while it swaps the compacted file in, so a handle opened before the swap
+	// and registered after it would serve the old file's bytes at the new offsets for as
+	// long as it stays pooled.
+	fc.readers.Lock()
 	file, err := fc.FS.Open(
 		fileKeyToName(key),
 		os.O_RDONLY,
 	)
 	if err != nil {
+		fc.readers.Unlock()
 		return nil, span.Error(err)
 	}
 
@@ -316,7 +322,6 @@ func (fc *fileController) newReader(ctx context.Context, key uint16) (*controlle
 		ReaderAtCloser:  file,
 		controllerEntry: newPoolEntry(key, fc.release, fc.Instrumentation),
 	}
-	fc.readers.Lock()
 	f, ok := fc.readers.files[key]
 	if !ok {
 		fc.readers.files[key] = &fileReaders{open: []controlledReader{r}}
